@@ -1,8 +1,12 @@
 ---------------------------- MODULE MC_IndexDiff ----------------------------
 EXTENDS IndexDiff
 
-KeysQ == {"a", "a/x", "b"}
+KeysQ == {"a", "a/x"}
 ParentQ == [k \in KeysQ |-> IF k = "a/x" THEN "a" ELSE ""]
+KeysM == {"a", "a/x", "a/y"}
+ParentM == [k \in KeysM |-> IF k = "a" THEN "" ELSE "a"]
+KeysG == {"a", "a/x", "a/y", "b"}
+ParentG == [k \in KeysG |-> IF k \in {"a", "b"} THEN "" ELSE "a"]
 KeysT == {"a", "a/x", "a/y", "a/x/p", "b"}
 ParentT == [k \in KeysT |-> CASE k = "a/x" -> "a" [] k = "a/y" -> "a" [] k = "a/x/p" -> "a/x" [] OTHER -> ""]
 
